@@ -285,6 +285,18 @@ def has_dup(lst):
 
 class C17(Family):
     prop = "C17"
+    # source-text tie (DESIGN 2.5): Generated/SubsysIndex.lean is rewritten from /repo's control/iosys.py
+    # (_process_subsys_index, NamedSignal._parse_key) on every run and proved equal to the model
+    # (`processIdx`, `parseSel`) in Props/C17Gen.lean
+    extra_modules = ["CtrlVerif.Props.C17Gen"]
+
+    def pre_build(self):
+        import os
+        from core import py2lean_select, leanproj
+        problems, self.gen_info = py2lean_select.regenerate(
+            os.environ.get("VERIF_REPO") or "/repo", leanproj.LEAN, "C17")
+        return problems
+
     exhaustive = True
     externals = ["numpy basic/fancy indexing and Python list/range slicing (their index semantics are the "
                  "model's `sliceList`/`normIdx`; compared on every case through the implementation, and "
@@ -675,4 +687,5 @@ class C17(Family):
         return out
 
 
-FAMILY = C17
+from families import select_streams as _sel      # direct stream for _process_subsys_index
+FAMILY = _sel.extend(C17, _sel.SubsysStream())
